@@ -62,6 +62,9 @@ func run(c *hc.Ctx) {
 	if sel("layout") {
 		genLayout(c)
 	}
+	if sel("fit") {
+		genFit(c)
+	}
 	if sel("textline") {
 		genTextLine(c)
 	}
@@ -304,6 +307,35 @@ func genG2I(c *hc.Ctx) {
 		}
 		if strings.Contains(string(rs), "\r\n") {
 			c.Count("g2i:has-CRLF")
+		}
+		// branches of GlyphsToItems reached
+		for i, r := range rs {
+			if i == 0 {
+				if isSpaceR(r) {
+					c.Count("g2i-branch:leading-pad")
+				}
+				continue
+			}
+			pr := rs[i-1]
+			switch {
+			case isSpaceR(r) && isSpaceR(pr):
+				c.Count("g2i-branch:glue-merged(consecutive-spaces)")
+			case isSpaceR(r) && align == text.Justified && textClass(pr) >= 3:
+				c.Count("g2i-branch:space-factor-punctuation")
+			case isSpaceR(r) && align == text.Justified && textClass(pr) == 1:
+				c.Count("g2i-branch:space-after-closer")
+			case glyphClass(r) == 'C' && glyphClass(pr) == 'C' && pr != '-' && (spaceless(scriptOf(r)) || spaceless(scriptOf(pr))):
+				c.Count("g2i-branch:spaceless-penalty-between-boxes")
+			case glyphClass(r) == 'C' && glyphClass(pr) == 'C' && pr != '-':
+				c.Count("g2i-branch:box-merged")
+			case glyphClass(r) == 'C' && pr == '-':
+				c.Count("g2i-branch:box-after-hyphen-penalty")
+			case (r == 0xAD || r == 0x200B) && align == text.Centered:
+				c.Count("g2i-branch:centered-optional-break")
+			}
+		}
+		if n := len(rs); n > 0 && isSpaceR(rs[n-1]) {
+			c.Count("g2i-branch:trailing-pad")
 		}
 		c.Distinct("g2i" + string(rs) + fmt.Sprint(align))
 		checkItems(c, glyphs, items, align, map[string]any{"runes": fmt.Sprintf("%q", string(rs)), "align": int(align), "indent": indent})
